@@ -139,7 +139,8 @@ func (c *controllerFacade) BeginTX(ctx context.Context, options *sql.TxOptions) 
 	}
 
 	// inside a transaction the ledger lock is transaction scoped: it is released by the caller's commit or rollback
-	lockedCtrl, _, _, err := ctrl.LockLedger(ctx)
+	// the caller must keep using (and commit) the controller BeginTX returned: events of the writes are queued on it
+	_, _, _, err = ctrl.LockLedger(ctx)
 	if err == nil {
 		err = markInUse(ctx, tx, l)
 	}
@@ -148,7 +149,7 @@ func (c *controllerFacade) BeginTX(ctx context.Context, options *sql.TxOptions) 
 		return nil, nil, err
 	}
 
-	return lockedCtrl, tx, nil
+	return ctrl, tx, nil
 }
 
 func (c *controllerFacade) CreateTransaction(ctx context.Context, parameters ledgercontroller.Parameters[ledgercontroller.CreateTransaction]) (*ledger.Log, *ledger.CreatedTransaction, bool, error) {
